@@ -107,6 +107,39 @@ RetsC07 == { <<"error">>, <<"p1.Order", "error">>, <<"[]p1.Derived", "error">>, 
 CfgsC07 == CfgsC06
 MethodsC07 == { MthP("POST", ps, ret, errs, 0) : ps \in {<<>>} \cup {<<a>> : a \in ParamsC07}, ret \in RetsC07, errs \in {<<>>, <<E(500)>>} }
 
+\* ---- C14: hostile inputs - malformed annotation properties, arbitrary validator tags, unsupported type shapes ------------------
+SRaw(n, raw) == [scheme |-> n, scopes |-> <<>>, rawProps |-> raw]
+HostileSec == { <<SRaw("s1", "{scopes: null}")>>, <<SRaw("s1", "{scopes: [null]}")>>, <<SRaw("s1", "{scopes: \"r\"}")>>, <<SRaw("s1", "{scopes: [1, 2]}")>>,
+                <<SRaw("s1", "{scopes: {a: 1}}")>>, <<SRaw("s1", "{name: 1}")>>, <<SRaw("s1", "{scopes: [\"r\"], scopes: [\"w\"]}")>>, <<SRaw("s1", "{")>>, <<SRaw("", "{scopes: []}")>> }
+AnRaw(k, v, raw) == [kind |-> k, value |-> v, alias |-> "", validate |-> "", desc |-> "", rawProps |-> raw]
+HostileAnns == { AnRaw("Query", "b", "{name: 1}"), AnRaw("Query", "b", "{name: null}"), AnRaw("Query", "b", "{validate: 5}"), AnRaw("Query", "b", "{validate: \"min=abc\"}"),
+                 AnRaw("Query", "b", "{validate: \"gt=x,lt=\"}"), AnRaw("Query", "b", "{validate: \",,\"}"), AnRaw("Query", "b", "{validate: \"oneof=\"}"),
+                 AnRaw("Query", "b", "{validate: \"len=\"}"), AnRaw("Query", "b", "{name: {a: [1]}}"), AnRaw("Query", "b", "{name: \"x\", extra: true}"), AnRaw("Query", "b", "{name: }") }
+HostileTags == { "min=abc", "max=", "len=x", "len=", "minItems=q", "maxItems=-1", "uniqueItems", "gt=x", "gte=", "lt=1e999", "oneof=", "enum=", ",,", "required,,min=1",
+                 "unknownrule=3", "pattern=[", "min=1,max=0,len=5,email,uuid,ip,hostname,datetime,gt=1,lt=2,oneof=a b c,enum=a|b" }
+THostile(tag, ft) == Ty("p1", "Hostile", "struct", "", <<Fld("V", ft, "v", tag)>>, <<>>)
+HostileTypeSets == { <<TItem, TMyErr, TColor, THostile(tag, ft)>> : tag \in HostileTags, ft \in {"string", "int", "[]string", "p1.Color", "*p1.Item"} }
+RawT(name, text) == [pkg |-> "p1", file |-> "types", name |-> name, kind |-> "raw", base |-> "", fields |-> <<>>, consts |-> <<>>, desc |-> "", raw |-> text, errorT |-> FALSE]
+UnsupportedTypeSets == {
+   <<TItem, TMyErr, TColor, RawT("Hostile", "type Hostile struct {\n\tV struct{ A int } `json:\"v\"`\n}")>>,
+   <<TItem, TMyErr, TColor, RawT("Hostile", "type Hostile struct {\n\tV func(int) string `json:\"v\"`\n}")>>,
+   <<TItem, TMyErr, TColor, RawT("Hostile", "type Hostile struct {\n\tV chan int `json:\"v\"`\n}")>>,
+   <<TItem, TMyErr, TColor, RawT("Hostile", "type Hostile struct {\n\tV interface{ M() } `json:\"v\"`\n}")>>,
+   <<TItem, TMyErr, TColor, RawT("Hostile", "type Hostile struct {\n\tV [4]int `json:\"v\"`\n}")>>,
+   <<TItem, TMyErr, TColor, RawT("Hostile", "type Hostile struct {\n\tV any `json:\"v\"`\n\tW map[int]string `json:\"w\"`\n}")>>,
+   <<TItem, TMyErr, TColor, RawT("Hostile", "type Hostile struct {\n\tV *Other `json:\"v\"`\n}\n\ntype Other struct {\n\tH []Hostile `json:\"h\"`\n\tO map[string]*Other `json:\"o\"`\n}")>>,
+   <<TItem, TMyErr, TColor, RawT("Hostile", "type Hostile[T any] struct {\n\tV T `json:\"v\"`\n}")>>,
+   <<TItem, TMyErr, TColor, RawT("Hostile", "type Hostile struct {\n\tV Gen[int] `json:\"v\"`\n}\n\ntype Gen[T any] struct {\n\tX T `json:\"x\"`\n}")>>,
+   <<TItem, TMyErr, TColor, RawT("Hostile", "type Hostile struct {\n\tV [][]*[]map[string][]int `json:\"v\"`\n}")>>,
+   <<TItem, TMyErr, TColor, RawT("Hostile", "type Hostile = Item")>>,
+   <<TItem, TMyErr, TColor, RawT("Hostile", "type Hostile uint8\n\nconst (\n\tHA Hostile = iota\n\tHB\n\tHC = HB << 2\n)")>> }
+CfgsC14 == { Cfg(en, v, FALSE, NoSec, <<"s1">>) : en \in {"gin", "fiber"}, v \in {"3.0.0", "3.1.0"} }
+CtrlsC14 == { Ctl("p1", "f1", "AController", "/a", "A", sec) : sec \in {<<>>} \cup HostileSec }
+MethodsC14 ==    { [MthP("POST", <<Prm("e", "p1.Hostile", "Body", "", "")>>, ret, <<>>, 0) EXCEPT !.sec = sec] : ret \in {<<"error">>, <<"p1.Hostile", "error">>}, sec \in {<<>>} \cup HostileSec }
+            \cup { [MthP("GET", <<Prm("b", "string", "Query", "", "")>>, <<"[]p1.Hostile", "error">>, <<>>, 0) EXCEPT !.anns = <<a>>] : a \in HostileAnns }
+            \cup { [MthP("GET", <<Prm("b", "p1.Hostile", "Query", "", "")>>, <<"error">>, <<>>, 0) EXCEPT !.verb = v] : v \in {"GET", "TRACE", ""} }
+TypeSetsC14 == HostileTypeSets \cup UnsupportedTypeSets
+
 \* ---- C10 / C18: every single and double perturbation of two well-formed base routes --------------------------------------
 An(k, v, al) == [kind |-> k, value |-> v, alias |-> al, validate |-> "", desc |-> ""]
 Sg(n, t) == [name |-> n, type |-> t]
